@@ -244,7 +244,7 @@ class GetattrTrait(CContract):
         if st.own is not None:
             o = z3.Const("o!own", Obj)
             out.append(("own:reference-neutral", z3.ForAll([o], st.own[o] == info["own0"][o] + z3.If(
-                z3.And(o == ret, ret != NULL), 1, 0)), {}, ("C18",)))
+                z3.And(o == ret, ret != NULL, z3.Not(A.immortal(ret))), 1, 0)), {}, ("C18",)))
         return out
 
     def covers(self, cx, ov, info):
